@@ -15,6 +15,9 @@ package luagen
 // A slip that shows only after an earlier caught error, after a failed resume of another thread or
 // at a particular (depth, count) pair changes a row.
 func (g *Gen) coHistory(d int) []Stmt {
+	if g.R.Chance(30) {
+		return g.coChainStatus(d)
+	}
 	g.use("w5-co-history")
 	p := g.fresh("h")
 	co, help, dive, rdive, cnt := p+"co", p+"tail", p+"dive", p+"rdive", p+"cnt"
@@ -139,5 +142,59 @@ func (g *Gen) coHistory(d int) []Stmt {
 		}
 	}
 	// a block of its own: the helpers and the history locals do not add to the locals of the enclosing function
+	return []Stmt{&Do{Body: out}}
+}
+
+// coChainStatus: a chain of three or four coroutines nested by resume (main -> c1 -> c2 -> ...);
+// every level reports the status of EVERY coroutine of the chain (itself: running, every ancestor,
+// direct or not: normal, the ones below: suspended or dead) each time it gains control: on entry,
+// after the level below has yielded or returned, after it has been resumed again itself; the
+// innermost one also tries to resume its ancestors (refused). The main thread reports between its
+// own resumes. A status that is computed from the direct resumer only, or a resume guard that looks
+// one level up only, changes a row.
+func (g *Gen) coChainStatus(d int) []Stmt {
+	g.use("w5-co-chain-status")
+	n := g.R.Range(3, 4)
+	p := g.fresh("k")
+	cs := make([]string, n+1)
+	for i := 1; i <= n; i++ {
+		cs[i] = p + "c" + itoa(i)
+	}
+	rep := p + "rep"
+	sts := []Expr{v("tag")}
+	for i := 1; i <= n; i++ {
+		sts = append(sts, call("coroutine.status", v(cs[i])))
+	}
+	out := []Stmt{&Local{Names: cs[1:]}, &LocalFunc{X: rep, F: &Func{Params: []string{"tag"}, Body: []Stmt{emit(sts...)}}}}
+	for i := n; i >= 1; i-- {
+		body := []Stmt{&CallS{E: call(rep, str("in"+itoa(i)))}}
+		if i < n {
+			body = append(body, emit(str("down"+itoa(i)), call("coroutine.resume", v(cs[i+1]), bin("+", v("x"), num(1)))), &CallS{E: call(rep, str("mid"+itoa(i)))})
+			if g.R.Chance(60) {
+				body = append(body, local1("z", call("coroutine.yield", str("y"+itoa(i)), v("x"))), &CallS{E: call(rep, str("back"+itoa(i)))},
+					emit(str("again"+itoa(i)), call("coroutine.resume", v(cs[i+1]), v("z"))), &CallS{E: call(rep, str("end"+itoa(i)))})
+			}
+		} else {
+			for j := 1; j < n; j++ {
+				if g.R.Chance(70) {
+					body = append(body, emit(str("up"+itoa(j)), call("coroutine.resume", v(cs[j]))))
+				}
+			}
+			body = append(body, emit(str("self"), bin("==", call("coroutine.running"), v(cs[n]))))
+			if g.R.Chance(60) {
+				body = append(body, local1("z", call("coroutine.yield", str("leaf"), v("x"))), &CallS{E: call(rep, str("leafback"))}, emit(str("leaf got"), v("z")))
+			}
+		}
+		if g.R.Chance(20) {
+			body = append(body, &CallS{E: call("error", &Table{Items: []TItem{{Kind: 1, Name: "code", E: num(float64(i))}}})})
+		} else {
+			body = append(body, ret(str("ret"+itoa(i)), v("x")))
+		}
+		out = append(out, set(v(cs[i]), call("coroutine.create", &Func{Params: []string{"x"}, Body: body})))
+	}
+	out = append(out, &CallS{E: call(rep, str("main0"))})
+	for t := 1; t <= 3; t++ {
+		out = append(out, emit(str("main"), call("coroutine.resume", v(cs[1]), num(float64(10*t)))), &CallS{E: call(rep, str("main"+itoa(t)))})
+	}
 	return []Stmt{&Do{Body: out}}
 }
